@@ -58,6 +58,9 @@ class ModuleIndex:
 
 def truth(c, v):
     """Python truthiness of a value as python bool or z3 Bool."""
+    if isinstance(v, OptV) and getattr(v, "cond", None) is not None:
+        ta, tb = truth(c, v.a), truth(c, v.b)
+        return z3.If(v.cond, z3.BoolVal(ta) if isinstance(ta, bool) else ta, z3.BoolVal(tb) if isinstance(tb, bool) else tb)
     if isinstance(v, OptV):
         t = truth(c, v.val)
         return z3.And(z3.Not(v.isnone), z3.BoolVal(t) if isinstance(t, bool) else t)
@@ -450,6 +453,12 @@ class Interp:
     def same_value(self, c, a, b):
         if a is b:
             return True
+        if getattr(a, "cond", None) is not None or getattr(b, "cond", None) is not None:
+            x, y = (a, b) if getattr(a, "cond", None) is not None else (b, a)
+            fa, fb = self.same_value(c, x.a, y), self.same_value(c, x.b, y)
+            fa = z3.BoolVal(fa) if isinstance(fa, bool) else fa
+            fb = z3.BoolVal(fb) if isinstance(fb, bool) else fb
+            return z3.If(x.cond, fa, fb)
         if isinstance(a, OptV) or isinstance(b, OptV):
             from .values import isnone, unopt
             na, nb = isnone(a), isnone(b)
